@@ -11,6 +11,7 @@ import (
 	"encoding/asn1"
 	"fmt"
 	"github.com/sassoftware/relic/v8/config"
+	"io"
 	"math/big"
 	"os"
 	"os/exec"
@@ -540,3 +541,70 @@ func extractPKCS7(format string, data []byte) (p7, detached []byte, err error) {
 }
 
 var _ = asn1.Marshal
+
+// TestC16_SingleValuedAttributes: an authority whose token carries the message digest
+// twice in one attribute (RFC 5652 requires exactly one value) must not get that token
+// embedded: relic either refuses the reply or what it emits has the attribute once.
+func TestC16_SingleValuedAttributes(t *testing.T) {
+	rapid.Check(t, func(t *rapid.T) {
+		const test = "TestC16_SingleValuedAttributes"
+		a := gkeys.TSA.Clone()
+		a.HashForSigning = rapid.SampledFrom([]crypto.Hash{crypto.SHA256, crypto.SHA384}).Draw(t, "tsahash")
+		ih := rapid.SampledFrom([]crypto.Hash{crypto.SHA256, crypto.SHA1, crypto.SHA512}).Draw(t, "imprinthash")
+		message := rapid.SliceOfN(rapid.Byte(), 1, 200).Draw(t, "signaturevalue")
+		hh := ih.New()
+		hh.Write(message)
+		behaviour := rapid.SampledFrom([]tsa.Behaviour{tsa.DuplicateDigestAttr, tsa.DuplicateDigestAttr, tsa.Valid}).Draw(t, "behaviour")
+		msg, httpReq, err := pkcs9.NewRequest("http://tsa.invalid/", ih, hh.Sum(nil))
+		if err != nil {
+			t.Fatalf("NewRequest: %v", err)
+		}
+		reqDER, _ := io.ReadAll(httpReq.Body)
+		_, _, body := a.Respond(reqDER, behaviour)
+		rec.Case(fmt.Sprintf("attr-once|%v|%v|%v|%x", behaviour, a.HashForSigning, ih, message), "attr-once/"+behaviour.String(), behaviour != tsa.Valid)
+		rec.Sample("attr-once", map[string]any{"behaviour": behaviour.String(), "tsa_hash": a.HashForSigning.String(), "imprint_hash": ih.String()})
+		tok, err := msg.ParseResponse(body)
+		if behaviour == tsa.Valid {
+			if err != nil {
+				fail(t, test, "valid", nil, body, "relic refuses a correct reply: %v", err)
+			}
+			return
+		}
+		if err != nil {
+			return // refused: nothing is emitted
+		}
+		// accepted: look at what would be emitted
+		sb := pkcs7.NewBuilder(keys.Key("p256a"), []*x509.Certificate{env.Leaf["p256a"], env.Inter.Cert}, crypto.SHA256)
+		if err := sb.SetContentData([]byte("payload")); err != nil {
+			t.Fatal(err)
+		}
+		host, err := sb.Sign()
+		if err != nil {
+			t.Fatalf("builder: %v", err)
+		}
+		if err := pkcs9.AddStampToSignedData(&host.Content.SignerInfos[0], *tok); err != nil {
+			return
+		}
+		out, err := host.Marshal()
+		if err != nil {
+			return
+		}
+		sd, err := der.ParseSignedData(out)
+		if err != nil {
+			fail(t, test, "dup", nil, out, "independent parser rejects relic's output: %v", err)
+		}
+		for _, ua := range sd.SignerInfos[0].UnsignedAttrs {
+			for _, v := range ua.Values {
+				nested, err := der.ParseSignedData(v.Raw)
+				if err != nil {
+					continue
+				}
+				for _, sa := range nested.SignerInfos[0].SignedAttrs {
+					if sa.OID == der.OIDAttrMessageDigest && len(sa.Values) != 1 {
+						fail(t, test, "dup", nil, out, "relic accepted the authority's reply and emits a timestamp token whose message-digest attribute has %d values", len(sa.Values))
+					}
+				}
+			}
+		}
+	})
+}
